@@ -3,6 +3,8 @@
 package ir
 
 import (
+	"io"
+
 	"github.com/llir/llvm/ir/constant"
 	"github.com/llir/llvm/ir/enum"
 	"github.com/llir/llvm/ir/metadata"
@@ -30,7 +32,26 @@ type hWriter struct {
 	failN     int
 	total     int64
 	short     bool // allow n == len(p) together with an error only if false
+	kind      int  // which error value a failing call returns (hWriterErr)
 }
+
+// hWriterErr: the error value of a failing call.  A writer may fail with any
+// error value, in particular with one of the standard sentinels that code
+// might be tempted to treat specially (io.ErrShortWrite: "try again",
+// io.EOF: "done"); the contract is the same for all of them.
+func hWriterErr(kind int) error {
+	switch kind {
+	case 1:
+		return io.ErrShortWrite
+	case 2:
+		return io.EOF
+	case 3:
+		return io.ErrClosedPipe
+	}
+	return hErr
+}
+
+const hErrKinds = 4
 
 var hCallNames = [...]string{"c00", "c01", "c02", "c03", "c04", "c05", "c06", "c07", "c08", "c09", "c10", "c11", "c12", "c13", "c14", "c15", "c16", "c17", "c18", "c19", "c20", "c21", "c22", "c23", "c24", "c25", "c26", "c27", "c28", "c29", "c30", "c31", "c32", "c33", "c34", "c35", "c36", "c37", "c38", "c39", "c40", "c41", "c42", "c43", "c44", "c45", "c46", "c47", "c48", "c49"}
 
@@ -41,7 +62,7 @@ func (w *hWriter) Write(p []byte) (int, error) {
 	if w.failed {
 		// already a violation (reported above): fail again without forking, so
 		// that a tree that keeps writing does not multiply the paths
-		return 0, hErr
+		return 0, hWriterErr(w.kind)
 	}
 	if k >= len(hCallNames) {
 		vfCut("more than 50 Write calls")
@@ -57,7 +78,7 @@ func (w *hWriter) Write(p []byte) (int, error) {
 	w.failChunk = append([]byte(nil), p...)
 	w.failN = n
 	w.total += int64(n)
-	return n, hErr
+	return n, hWriterErr(w.kind)
 }
 
 func hLetter(name string) string {
@@ -165,12 +186,15 @@ func VfC19_WriteTo() {
 	})
 	want := m.String()
 	w := &hWriter{}
+	if cfg == 0 {
+		w.kind = vfChoice("errkind", hErrKinds)
+	}
 	n, err := m.WriteTo(w)
 	vfReach("C19.writeto")
 	vfObserveInt("calls", w.calls)
 	vfAssert("C19.count-is-accepted-bytes", n == w.total)
 	if w.failed {
-		vfAssert("C19.first-error-returned", err == error(hErr))
+		vfAssert("C19.first-error-returned", err == hWriterErr(w.kind))
 		got := string(w.full) + string(w.failChunk)
 		vfAssert("C19.delivered-is-prefix", vfAnd(len(got) <= len(want), got == want[:minInt(len(got), len(want))]))
 		vfAssert("C19.count-bounded", vfAnd(int64(len(w.full)) <= n, n <= int64(len(got))))
@@ -192,7 +216,7 @@ func minInt(a, b int) int {
 //
 //vf:unwind 100
 func VfC19_Step() {
-	w := &hWriter{}
+	w := &hWriter{kind: vfChoice("errkind", hErrKinds)}
 	size := vfInt64("size")
 	vfAssume(vfAnd(size >= 0, size < 1<<40))
 	fw := &fmtWriter{w: w, size: size}
@@ -221,7 +245,7 @@ func VfC19_Step() {
 	vfAssert("C19.step.one-write", w.calls == 1)
 	vfAssert("C19.step.size", vfAnd(fw.size == size+w.total, int64(n) == w.total))
 	if w.failed {
-		vfAssert("C19.step.err-recorded", vfAnd(fw.err == error(hErr), err == error(hErr)))
+		vfAssert("C19.step.err-recorded", vfAnd(fw.err == hWriterErr(w.kind), err == hWriterErr(w.kind)))
 	} else {
 		vfAssert("C19.step.no-err", vfAnd(fw.err == nil, err == nil))
 	}
